@@ -128,13 +128,22 @@ fn generate_cases(ctx: &mut Ctx, idx: usize) {
     let start: u64 = ctx.prng.gen::<u32>() as u64;
     let window = (start..start + 200_000).map(Scalar::from).find(|s| { let d = digest_of(s, 0); canonical(&d).is_none() && d[31] == 0x73 });
     for it in 0..6 {
-        let secret = match (it, window) { (0, Some(s)) => s, _ => rand_scalar(&mut ctx.prng) };
+        // it = 1, 2: secrets whose index loop runs long (first canonical digest at index 30..38, table in revsecrets.rs)
+        let secret = match (it, window) { (0, Some(s)) => s, (1, _) | (2, _) => crate::revsecrets::next_long_loop(ctx).map(|x| x.0).unwrap_or_else(|| rand_scalar(&mut ctx.prng)), _ => rand_scalar(&mut ctx.prng) };
         let mut rng = ScriptedRng::new(ctx.prng.gen(), book.clone());
         rng.force_scalars(&[secret]);
-        let p = zkabacus_crypto::internal::test_new_revocation_pair(&mut rng);
+        let p = match std::panic::catch_unwind(std::panic::AssertUnwindSafe(|| zkabacus_crypto::internal::test_new_revocation_pair(&mut rng))) {
+            Ok(p) => p,
+            Err(_) => {
+                ctx.count("revpair-new:PANIC");
+                ctx.violation(&format!("RevocationPair::new panics for a secret whose first canonical SHA3(secret || index) is at index {:?}", crate::revsecrets::first_valid_index(&secret, 255)), json!({"class": "revpair-new-panics", "secret": hex_s(&secret)}));
+                continue;
+            }
+        };
         let pb = wire::ser(&p);
         let (lock, sec, index) = (s_at(&pb, 0).unwrap(), s_at(&pb, 32).unwrap(), pb[64]);
-        let digests: Vec<String> = (0..=index.min(30)).map(|i| hex::encode(digest_of(&secret, i))).collect();
+        let upto = crate::revsecrets::first_valid_index(&secret, 255).unwrap_or(255).max(index).min(80);
+        let digests: Vec<String> = (0..=upto).map(|i| hex::encode(digest_of(&secret, i))).collect();
         let stream = stream_arg(&book, &rng.log, &[]);
         let _ = ctx.expect(&format!("revpair-new {} {}", digests.join(","), stream), &[Real::V("ok".into()), Real::S(lock), Real::S(sec), Real::N(index as u128), Real::N(0)]);
         let inv = sec == secret && canonical(&digest_of(&sec, index)) == Some(lock) && (0..index).all(|i| canonical(&digest_of(&sec, i)).is_none());
